@@ -27,6 +27,8 @@ ENC = [
     ("a,b,c+'nan'", ["a", "b", "c"], "nan", str),
     ("no,yes,zz+'none'", ["no", "yes", "zz"], "none", str),
     ("x,y,z+None", ["x", "y", "z"], None, object),
+    # class names LONGER than the sentinel (an array created from the sentinel alone is too narrow for them)
+    ("alpha,beta,gamma+'na'", ["alpha", "beta", "gamma"], "na", str),
 ]
 
 
